@@ -117,6 +117,12 @@ func VerifC17Iter() {
 	case 0:
 		a := vrt.Int("a")
 		n := vrt.Range("count", -2, 4)
+		if vrt.Bool("near-a-magnitude-limit") {
+			// a within 16 of +-2^53 (where float64 stops holding every int) or of +-2^62
+			d := vrt.Range("offset", -16, 16)
+			bases := [...]int{1 << 53, -(1 << 53), 1<<62 - 32, -(1<<62 - 32), 1 << 24, 1 << 31, 1 << 32}
+			vrt.Assume(a == bases[vrt.Choice("limit", len(bases))]+d)
+		}
 		vrt.Assume(a < 1<<62 && a > -(1 << 62))
 		b := a + n
 		v, err := p.S.Run(collect(call("fromto", node.Int(a), node.Int(b))), true)
